@@ -286,6 +286,18 @@ func c10FuncLabel(fd *ast.FuncDecl) string {
 	return fd.Name.Name
 }
 
+// pointer types written with a builtin element type (`x.(*bool)`) are not dereferences
+var c10BuiltinTypes = map[string]bool{"bool": true, "string": true, "int": true, "int32": true, "int64": true, "float64": true,
+	"byte": true, "uint64": true, "uint32": true, "any": true}
+
+// c10FuncFilter: for files of which only some functions belong to the modelled path
+var c10FuncFilter = map[string]func(label string) bool{
+	"boltz/typed_bucket.go": func(l string) bool { return strings.HasPrefix(l, "FieldTo") || strings.HasPrefix(l, "BytesTo") },
+	"boltz/store_query.go": func(l string) bool {
+		return strings.HasSuffix(l, ".newRowComparator") || strings.HasSuffix(l, ".NewScanner") || strings.HasSuffix(l, ".QueryIdsC")
+	},
+}
+
 func c10SitesOfFile(fset *token.FileSet, rel string, f *ast.File, typeNames map[string]bool) []c10Site {
 	var res []c10Site
 	add := func(label, kind, expr string, nilChecked bool) {
@@ -303,8 +315,12 @@ func c10SitesOfFile(fset *token.FileSet, rel string, f *ast.File, typeNames map[
 			continue
 		}
 		label := c10FuncLabel(fd)
+		if flt, ok := c10FuncFilter[rel]; ok && !flt(label) {
+			continue
+		}
 		checked := map[*ast.TypeAssertExpr]bool{}
 		nilCmp := map[string]bool{}
+		nilCmpCall := map[string]bool{}
 		ast.Inspect(fd.Body, func(n ast.Node) bool {
 			switch s := n.(type) {
 			case *ast.BinaryExpr:
@@ -312,6 +328,9 @@ func c10SitesOfFile(fset *token.FileSet, rel string, f *ast.File, typeNames map[
 					if y, ok := s.Y.(*ast.Ident); ok && y.Name == "nil" {
 						if x, ok := s.X.(*ast.Ident); ok {
 							nilCmp[x.Name] = true
+						}
+						if x, ok := s.X.(*ast.CallExpr); ok {
+							nilCmpCall[c10ExprText(fset, x)] = true
 						}
 					}
 				}
@@ -337,8 +356,15 @@ func c10SitesOfFile(fset *token.FileSet, rel string, f *ast.File, typeNames map[
 					add(label, "assert", c10ExprText(fset, e), false)
 				}
 			case *ast.StarExpr:
-				if id, ok := e.X.(*ast.Ident); ok && !typeNames[id.Name] {
+				if id, ok := e.X.(*ast.Ident); ok && !typeNames[id.Name] && !c10BuiltinTypes[id.Name] {
 					add(label, "deref", "*"+id.Name, nilCmp[id.Name])
+				}
+				// `*f(x)`: dereference of a call result (checked = the same call is compared with nil)
+				if call, ok := e.X.(*ast.CallExpr); ok {
+					if _, isParen := call.Fun.(*ast.ParenExpr); !isParen {
+						txt := c10ExprText(fset, call)
+						add(label, "deref", "*"+txt, nilCmpCall[txt])
+					}
 				}
 			case *ast.IndexExpr:
 				switch ix := e.Index.(type) {
@@ -364,6 +390,8 @@ type c10Wiring struct {
 	LexerSilenced  bool   `json:"lexerSilenced"`  // lexer.RemoveErrorListeners()
 	ParserCollects bool   `json:"parserCollects"` // p.AddErrorListener(<the collecting listener parameter>)
 	ListenerWalked bool   `json:"listenerWalked"` // ParseTreeWalkerDefault.Walk(l, tree)
+	ParserCleared  bool   `json:"parserCleared"`  // p.RemoveErrorListeners() as a plain top-level statement (every path, before use)
+	ParserClearedDeferred bool `json:"parserClearedDeferred"` // defer p.RemoveErrorListeners(): nothing left behind in the pool
 	Note           string `json:"note,omitempty"`
 }
 
@@ -406,6 +434,29 @@ func extractC10Wiring(repo string) c10Wiring {
 			}
 			return true
 		})
+		// top-level statements of the body: plain / deferred `p.RemoveErrorListeners()`
+		for _, st := range fd.Body.List {
+			var call *ast.CallExpr
+			deferred := false
+			switch x := st.(type) {
+			case *ast.ExprStmt:
+				call, _ = x.X.(*ast.CallExpr)
+			case *ast.DeferStmt:
+				call, deferred = x.Call, true
+			}
+			if call == nil {
+				continue
+			}
+			if se, ok := call.Fun.(*ast.SelectorExpr); ok && se.Sel.Name == "RemoveErrorListeners" {
+				if recv, ok := se.X.(*ast.Ident); ok && kind[recv.Name] == "parser" {
+					if deferred {
+						w.ParserClearedDeferred = true
+					} else {
+						w.ParserCleared = true
+					}
+				}
+			}
+		}
 		ast.Inspect(fd.Body, func(n ast.Node) bool {
 			call, ok := n.(*ast.CallExpr)
 			if !ok {
@@ -470,8 +521,11 @@ func extractC10Sites(repo, gen, facts string) {
 	add("ast", func(n string) bool {
 		return n == "bolt_listener.go" || n == "node_convert.go" || n == "cursors.go" || n == "helper.go" || strings.HasPrefix(n, "node_")
 	})
-	add("boltz", func(n string) bool { return n == "query_cursor.go" })
+	add("boltz", func(n string) bool {
+		return n == "query_cursor.go" || n == "query_sort.go" || n == "query_scanners.go" || n == "store_query.go" || n == "typed_bucket.go"
+	})
 	add("zitiql", func(n string) bool { return n == "util.go" })
+	add("objectz", func(n string) bool { return !strings.HasSuffix(n, "_test.go") })
 	sort.SliceStable(sites, func(i, j int) bool {
 		a, b := sites[i], sites[j]
 		if a.File != b.File {
@@ -526,6 +580,8 @@ func extractC10Sites(repo, gen, facts string) {
 	}
 	b.WriteString("]\n")
 	fmt.Fprintf(&b, "def wiring : Bool × Bool × Bool × Bool := (%v, %v, %v, %v)\n", w.LexerCollects, w.LexerSilenced, w.ParserCollects, w.ListenerWalked)
+	fmt.Fprintf(&b, "/-- pooled parser: listeners removed before use on every path, and again (deferred) after use -/\ndef wiringPool : Bool × Bool := (%v, %v)\n", w.ParserCleared, w.ParserClearedDeferred)
+	fmt.Fprintf(&b, "/-- objectz memSortingScanner.Scan: does `cursor == nil` come before the first `cursor.Current()` -/\ndef objScanNilTestFirst : Bool := %v\n", c10ObjScanNilTestFirst(repo))
 	b.WriteString("def listenerCallbacks : List String := [")
 	for i, c := range callbacks {
 		if i > 0 {
@@ -537,7 +593,44 @@ func extractC10Sites(repo, gen, facts string) {
 	writeIfChanged(filepath.Join(gen, "C10Sites.lean"), b.String())
 }
 
+// c10ObjScanNilTestFirst: in objectz/object_store.go memSortingScanner.Scan, is the iterator compared
+// with nil before it is first used (`cursor.Current()`)?  false also when the function is not found.
+func c10ObjScanNilTestFirst(repo string) bool {
+	fset := token.NewFileSet()
+	f, err := parser.ParseFile(fset, filepath.Join(repo, "objectz", "object_store.go"), nil, 0)
+	if err != nil {
+		return false
+	}
+	for _, d := range f.Decls {
+		fd, ok := d.(*ast.FuncDecl)
+		if !ok || fd.Body == nil || fd.Name.Name != "Scan" || c10RecvName(fd) != "memSortingScanner" {
+			continue
+		}
+		firstUse, nilTest := token.NoPos, token.NoPos
+		ast.Inspect(fd.Body, func(n ast.Node) bool {
+			switch e := n.(type) {
+			case *ast.CallExpr:
+				if se, ok := e.Fun.(*ast.SelectorExpr); ok {
+					if id, ok := se.X.(*ast.Ident); ok && id.Name == "cursor" && firstUse == token.NoPos {
+						firstUse = e.Pos()
+					}
+				}
+			case *ast.BinaryExpr:
+				if x, ok := e.X.(*ast.Ident); ok && x.Name == "cursor" && e.Op == token.EQL {
+					if y, ok := e.Y.(*ast.Ident); ok && y.Name == "nil" && nilTest == token.NoPos {
+						nilTest = e.Pos()
+					}
+				}
+			}
+			return true
+		})
+		return nilTest != token.NoPos && (firstUse == token.NoPos || nilTest < firstUse)
+	}
+	return false
+}
+
 func extractC10(repo, gen, facts string) {
 	extractC10Classes(repo, gen, facts)
 	extractC10Sites(repo, gen, facts)
+	extractC10Lexer(repo, gen, facts)
 }
